@@ -1,17 +1,21 @@
-From TN Require Export Harness.HBase Model.Automata.
+From TN Require Export Harness.HBase Model.Automata Sem.Fast Proofs.AcceptedFast.
+(* the evaluators used here are the list-based ones, proved equal to eval / accepted_inputs
+   (Sem/Fast.eval_l_sound, Proofs/AcceptedFast.accepted_inputs_l_sound) *)
 
 Inductive op16 :=
 | OMask (w nss : list nat)            (* tn.weight_mask(N, w, nsymbols) *)
 | OWeight (nss : list nat)            (* tn.weight(N, nsymbols) *)
-| OOneHot (r : nat) (nss : list nat)  (* tn.weight_one_hot(N, r, nsymbols).torch(): open bond summed *)
+| OOneHot (r : nat) (nss : list nat)  (* tn.weight_one_hot(N, r, nsymbols), last bond open *)
 | OAccepted (t : tensor ZO).          (* tn.accepted_inputs(t) *)
 
 Record case := mkCase { c_op : op16; c_dense : list Z; c_rows : list (list nat) }.
 
 Definition check (c : case) : bool :=
   match c_op c with
-  | OMask w nss => list_cmp cmpZ (dense_of (eval (K:=ZO) (weight_mask_net w nss)) nss) (c_dense c)
-  | OWeight nss => list_cmp cmpZ (dense_of (eval (K:=ZO) (weight_net nss)) nss) (c_dense c)
-  | OOneHot r nss => list_cmp cmpZ (dense_of (eval (K:=ZO) (one_hot_net r nss)) nss) (c_dense c)
-  | OAccepted t => list_eqb (list_eqb Nat.eqb) (accepted_inputs (sem t)) (c_rows c)
+  | OMask w nss => list_cmp cmpZ (dense_of (eval_l (K:=ZO) (weight_mask_net w nss)) nss) (c_dense c)
+  | OWeight nss => list_cmp cmpZ (dense_of (eval_l (K:=ZO) (weight_net nss)) nss) (c_dense c)
+  | OOneHot r nss =>
+      (* the last bond is left open: entry (x, k) = k-th component of the propagated row vector *)
+      list_cmp cmpZ (flat_map (fun idx => propl (K:=ZO) [1%Z] (one_hot_net r nss) idx) (all_idx nss)) (c_dense c)
+  | OAccepted t => list_eqb (list_eqb Nat.eqb) (accepted_inputs_l (sem t)) (c_rows c)
   end.
